@@ -44,6 +44,7 @@ pub open spec fn hover_answers(r: std::result::Result<Option<Hover>, Report>, wa
     }
 }
 //@extract lsp4spl/src/features/hover.rs :: fn hover :: iflet cursor
+//@ rewrite map_entry_from map_inline or_else_inline
 //@ lift pub fn hover_at(cursor: DocumentCursor) -> (r: std::result::Result<Option<Hover>, Report>)
 //@ sig
     requires text_fits(cursor.doc.text@),
